@@ -8,9 +8,14 @@ one small program with explicit bounds (-P pre-emptions, -S delayed stores,
 """
 
 HARNESSES = {
-    "h_spinlock": {"kind": "raw", "wraps": ["fiber_manager_get", "fmc_spin_hint"]},
+    "h_spinlock": {"kind": "raw", "wraps": ["fiber_manager_get", "fmc_spin_hint"], "objs": ["fiber_spinlock.o"]},
     "h_mutex": {"kind": "rt"},
     "h_barrier": {"kind": "rt"},
+    "h_queues": {"kind": "raw"},
+    "h_ring": {"kind": "raw"},
+    "h_workq": {"kind": "raw"},
+    "h_deque": {"kind": "raw"},
+    "h_litmus": {"kind": "raw"},
 }
 
 
@@ -53,6 +58,62 @@ CHECKS = {
             R("h_barrier", "-P2", "-DN=2", "-Dcount=3", "-Drounds=2"),
             R("h_barrier", "-P2", "-DN=2", "-Dcount=2", "-Drounds=3"),
             R("h_barrier", "-P2", "-DN=2", "-Dcount=3", "-Drounds=2", "-Dmain=1"),
+        ],
+    },
+    "C15": {
+        "title": "MPSC / SPSC / relaxed MPSC queues",
+        "level_text": "All schedules within the pre-emption bound (and, with D=1, all placements of one delayed store per thread under x86-TSO) of 1-2 producer threads and one consumer thread on the real mpsc_fifo / spsc_fifo / mpscr_fifo; every complete call/return history is checked by brute-force linearizability against a FIFO (per-producer FIFOs for the relaxed queue) with the relaxation the property grants (empty allowed while a push overlaps); popped nodes are freed at once under a heap shadow.",
+        "quick": [
+            R("h_queues", "-P2", "-Dq=0"),
+            R("h_queues", "-P3", "-Dq=1"),
+            R("h_queues", "-P2", "-Dq=2"),
+            R("h_queues", "-P1", "-S1", "-Dq=0"),
+            R("h_queues", "-P1", "-S1", "-Dq=1"),
+        ],
+        "thorough": [
+            R("h_queues", "-P3", "-Dq=0"),
+            R("h_queues", "-P4", "-Dq=1"),
+            R("h_queues", "-P2", "-Dq=2", "-Dpops=5"),
+            R("h_queues", "-P2", "-S1", "-Dq=0"),
+            R("h_queues", "-P2", "-S1", "-Dq=1"),
+            R("h_queues", "-P2", "-S1", "-Dq=2"),
+        ],
+    },
+    "C16": {
+        "title": "lock-free ring buffer",
+        "level_text": "All schedules within the pre-emption bound of 2-3 threads doing trypush/trypop on the real lockfree_ring_buffer of capacity 2 and 4 (slots reused within the run, counters crossing 2^32); every history is checked by brute-force linearizability against a bounded FIFO where an operation may additionally fail if another operation overlapped it.",
+        "quick": [
+            R("h_ring", "-P2", "-Dshape=0"),
+            R("h_ring", "-P2", "-Dshape=3", "-Dwrap=1"),
+            R("h_ring", "-P2", "-Dshape=2"),
+            R("h_ring", "-P2", "-Dshape=4"),
+            R("h_ring", "-P1", "-Dshape=1", "-Dp2=2"),
+            R("h_ring", "-P1", "-S1", "-Dshape=0"),
+        ],
+        "thorough": [
+            R("h_ring", "-P3", "-Dshape=0"),
+            R("h_ring", "-P3", "-Dshape=3", "-Dwrap=1"),
+            R("h_ring", "-P3", "-Dshape=2"),
+            R("h_ring", "-P2", "-Dshape=4", "-Dp2=2"),
+            R("h_ring", "-P2", "-Dshape=1"),
+            R("h_ring", "-P2", "-S1", "-Dshape=0"),
+        ],
+    },
+    "C17": {
+        "title": "work queue: one worker, exactly-once, none stranded",
+        "level_text": "All schedules within the pre-emption bound of 2-3 threads pushing 1-3 items each into the real work_queue and draining when told to; the oracle orders START/EMPTY decisions by the instant of the deciding atomic operation on in_count (taken from the runtime's log of the real atomic operations) and checks worker alternation, exactly-once hand-out, EMPTY only when everything announced earlier was handed out, and nothing stranded at the end.",
+        "quick": [
+            R("h_workq", "-P2", "-Dshape=0"),
+            R("h_workq", "-P2", "-Dshape=2"),
+            R("h_workq", "-P1", "-Dshape=1"),
+            R("h_workq", "-P1", "-S1", "-Dshape=0"),
+        ],
+        "thorough": [
+            R("h_workq", "-P3", "-Dshape=2"),
+            R("h_workq", "-P2", "-Dshape=0"),
+            R("h_workq", "-P2", "-Dshape=1"),
+            R("h_workq", "-P2", "-Dshape=3"),
+            R("h_workq", "-P2", "-S1", "-Dshape=0"),
         ],
     },
     "C18": {
